@@ -1,7 +1,1057 @@
-//! C11 — not implemented yet.
+//! C11 — FASTA/FASTQ indexing and random access return exactly the indexed bases.
+//!
+//! Oracle: `oracle::fasta_naive` (whole-file line splitter). Sub-checks:
+//!   * `index_query` — FASTA built by the harness (any width, LF/CRLF, blank lines, short last
+//!     line, missing final newline) or by `fasta::io::Writer`; plain or bgzipped with a gzi from the
+//!     harness's BGZF walker; small `BufReader` capacities and a scripted `fill_buf` window; the fai
+//!     records must equal the naive values and every region query the naive slice;
+//!   * `ragged` — one line of a valid file lengthened / shortened / re-terminated: the indexer must
+//!     fail whenever the naive shape is ragged;
+//!   * `write_read` — FASTA and FASTQ written by noodles read back equal, byte form = line wrapping
+//!     at the configured width, FASTQ index = naive offsets;
+//!   * `fastq_layouts` — harness-built four-line FASTQ (CRLF, repeated name after `+`, tab
+//!     separator) read through small buffers.
 
 use crate::engine::*;
+use crate::r#gen::text::{self, FastaDoc, FastaDocSpec, FastqDoc};
+use crate::oracle::bgzf_walk;
+use crate::oracle::fasta_naive::{self, NaiveRecord, Shape};
+use crate::{ensure, ensure_eq};
+use bstr::BString;
+use noodles_bgzf as bgzf;
+use noodles_core::{Position, Region};
+use noodles_fasta::{self as fasta, fai};
+use noodles_fastq as fastq;
+use proptest::prelude::*;
+use serde::{Deserialize, Serialize};
+use std::io::{self, BufRead, BufReader, Cursor, Read, Seek, SeekFrom};
+use std::sync::atomic::{AtomicU64, Ordering};
+
+pub const SIG_BEYOND: &str = "fasta.query.start-beyond-end";
+
+// ------------------------------------------------------------------------------------------------
+// readers
+
+#[derive(Clone, Debug, Serialize, Deserialize)]
+pub enum ReaderKind {
+    /// `Cursor<Vec<u8>>` itself (one window = the whole rest)
+    Cursor,
+    /// `BufReader::with_capacity(n, Cursor)`, n in 1..=64
+    Cap(u8),
+    /// a direct `BufRead` whose `fill_buf` exposes only the next scripted window
+    Window(Vec<u8>),
+}
+
+/// A `BufRead + Seek` over a byte vector that never shows more than the current scripted window.
+pub struct WinCursor {
+    data: Vec<u8>,
+    pos: usize,
+    script: Vec<u8>,
+    i: usize,
+    left: usize,
+}
+
+impl WinCursor {
+    pub fn new(data: Vec<u8>, script: Vec<u8>) -> Self {
+        WinCursor { data, pos: 0, script, i: 0, left: 0 }
+    }
+}
+
+impl BufRead for WinCursor {
+    fn fill_buf(&mut self) -> io::Result<&[u8]> {
+        if self.pos >= self.data.len() {
+            return Ok(&[]);
+        }
+        if self.left == 0 {
+            let w = if self.script.is_empty() { 1 } else { self.script[self.i % self.script.len()] };
+            self.i += 1;
+            self.left = (w as usize).max(1);
+        }
+        let end = (self.pos + self.left).min(self.data.len());
+        Ok(&self.data[self.pos..end])
+    }
+    fn consume(&mut self, amt: usize) {
+        self.pos += amt;
+        self.left = self.left.saturating_sub(amt);
+    }
+}
+
+impl Read for WinCursor {
+    fn read(&mut self, buf: &mut [u8]) -> io::Result<usize> {
+        let src = self.fill_buf()?;
+        let n = src.len().min(buf.len());
+        buf[..n].copy_from_slice(&src[..n]);
+        self.consume(n);
+        Ok(n)
+    }
+}
+
+impl Seek for WinCursor {
+    fn seek(&mut self, pos: SeekFrom) -> io::Result<u64> {
+        match pos {
+            SeekFrom::Start(p) => {
+                self.pos = usize::try_from(p).unwrap_or(usize::MAX);
+                self.left = 0;
+                Ok(p)
+            }
+            _ => Err(io::Error::new(io::ErrorKind::Unsupported, "WinCursor: only SeekFrom::Start")),
+        }
+    }
+}
+
+pub enum AnyReader {
+    Cursor(Cursor<Vec<u8>>),
+    Cap(BufReader<Cursor<Vec<u8>>>),
+    Window(WinCursor),
+    Bgzf(Box<bgzf::io::IndexedReader<BufReader<Cursor<Vec<u8>>>>>),
+}
+
+impl Read for AnyReader {
+    fn read(&mut self, buf: &mut [u8]) -> io::Result<usize> {
+        match self {
+            AnyReader::Cursor(r) => r.read(buf),
+            AnyReader::Cap(r) => r.read(buf),
+            AnyReader::Window(r) => r.read(buf),
+            AnyReader::Bgzf(r) => r.read(buf),
+        }
+    }
+}
+
+impl BufRead for AnyReader {
+    fn fill_buf(&mut self) -> io::Result<&[u8]> {
+        match self {
+            AnyReader::Cursor(r) => r.fill_buf(),
+            AnyReader::Cap(r) => r.fill_buf(),
+            AnyReader::Window(r) => r.fill_buf(),
+            AnyReader::Bgzf(r) => r.fill_buf(),
+        }
+    }
+    fn consume(&mut self, amt: usize) {
+        match self {
+            AnyReader::Cursor(r) => r.consume(amt),
+            AnyReader::Cap(r) => r.consume(amt),
+            AnyReader::Window(r) => r.consume(amt),
+            AnyReader::Bgzf(r) => r.consume(amt),
+        }
+    }
+}
+
+impl Seek for AnyReader {
+    fn seek(&mut self, pos: SeekFrom) -> io::Result<u64> {
+        match self {
+            AnyReader::Cursor(r) => r.seek(pos),
+            AnyReader::Cap(r) => r.seek(pos),
+            AnyReader::Window(r) => r.seek(pos),
+            AnyReader::Bgzf(r) => r.seek(pos),
+        }
+    }
+}
+
+fn cap_of(k: &ReaderKind) -> usize {
+    match k {
+        ReaderKind::Cap(c) => (*c as usize).clamp(1, 64),
+        _ => 8192,
+    }
+}
+
+/// The stream the case describes: plain bytes, or a BGZF file + gzi.
+pub struct Stream {
+    /// uncompressed FASTA text
+    pub text: Vec<u8>,
+    /// (file, gzi entries) when bgzipped
+    pub bgz: Option<(Vec<u8>, Vec<(u64, u64)>)>,
+}
+
+impl Stream {
+    pub fn new(text: Vec<u8>, block_sizes: &Option<Vec<u16>>) -> Result<Stream, Vec<Fail>> {
+        let bgz = match block_sizes {
+            None => None,
+            Some(script) => {
+                let mut blocks: Vec<Vec<u8>> = Vec::new();
+                let mut off = 0usize;
+                let mut i = 0usize;
+                while off < text.len() {
+                    let n = if script.is_empty() { 64 } else { script[i % script.len()] as usize }.max(1);
+                    let end = (off + n).min(text.len());
+                    blocks.push(text[off..end].to_vec());
+                    off = end;
+                    i += 1;
+                }
+                let file = bgzf_walk::build_file(&blocks, 1, true);
+                let members = bgzf_walk::walk(&file).map_err(|e| vec![Fail::new("c11.harness.bgzf-build", e)])?;
+                let gzi = bgzf_walk::gzi_of(&members);
+                Some((file, gzi))
+            }
+        };
+        Ok(Stream { text, bgz })
+    }
+
+    /// A seekable reader over the stream.
+    pub fn open(&self, kind: &ReaderKind) -> AnyReader {
+        match &self.bgz {
+            Some((file, gzi)) => {
+                let inner = BufReader::with_capacity(cap_of(kind), Cursor::new(file.clone()));
+                AnyReader::Bgzf(Box::new(bgzf::io::IndexedReader::new(inner, bgzf::gzi::Index::from(gzi.clone()))))
+            }
+            None => match kind {
+                ReaderKind::Cursor => AnyReader::Cursor(Cursor::new(self.text.clone())),
+                ReaderKind::Cap(_) => AnyReader::Cap(BufReader::with_capacity(cap_of(kind), Cursor::new(self.text.clone()))),
+                ReaderKind::Window(s) => AnyReader::Window(WinCursor::new(self.text.clone(), s.clone())),
+            },
+        }
+    }
+
+    /// Run the indexer over the stream the way `fasta::fs::index` does (loop over `index_record`).
+    pub fn index(&self, kind: &ReaderKind) -> Result<Vec<fai::Record>, String> {
+        fn run<R: BufRead>(r: R) -> Result<Vec<fai::Record>, String> {
+            let mut indexer = fasta::io::Indexer::new(r);
+            let mut out = Vec::new();
+            loop {
+                match indexer.index_record() {
+                    Ok(Some(rec)) => out.push(rec),
+                    Ok(None) => return Ok(out),
+                    Err(e) => return Err(format!("{e}")),
+                }
+            }
+        }
+        match &self.bgz {
+            // plain (non-indexed) BGZF reader: what a caller indexing a .fa.gz would use
+            Some((file, _)) => run(bgzf::io::Reader::new(BufReader::with_capacity(cap_of(kind), Cursor::new(file.clone())))),
+            None => run(self.open(kind)),
+        }
+    }
+}
+
+fn reader_kind() -> BoxedStrategy<ReaderKind> {
+    prop_oneof![
+        1 => Just(ReaderKind::Cursor),
+        5 => (1u8..=64).prop_map(ReaderKind::Cap),
+        2 => (1u8..=7).prop_map(ReaderKind::Cap),
+        3 => proptest::collection::vec(prop_oneof![3 => 1u8..=4, 2 => 1u8..=80, 1 => Just(255u8)], 1..=6).prop_map(ReaderKind::Window),
+    ]
+    .boxed()
+}
+
+fn bgz_script() -> BoxedStrategy<Option<Vec<u16>>> {
+    prop_oneof![
+        3 => Just(None),
+        2 => proptest::collection::vec(prop_oneof![2 => 1u16..=9, 3 => 1u16..=120, 1 => 200u16..=5000], 1..=5).prop_map(Some),
+    ]
+    .boxed()
+}
+
+// ------------------------------------------------------------------------------------------------
+// index comparison (shared by `index_query` and `ragged`)
+
+pub struct IndexOutcome {
+    pub naive: Vec<NaiveRecord>,
+    /// `Some` when the indexer accepted the file (and, then, every record equals the naive values)
+    pub index: Option<Vec<fai::Record>>,
+    pub worst: Shape,
+    pub err: Option<String>,
+}
+
+fn worst_shape(naive: &[NaiveRecord]) -> Shape {
+    let mut w = Shape::Strict;
+    for r in naive {
+        match r.shape() {
+            Shape::Ragged => return Shape::Ragged,
+            Shape::Empty => return Shape::Empty,
+            Shape::Lenient => w = Shape::Lenient,
+            Shape::Strict => {}
+        }
+    }
+    w
+}
+
+/// Index the stream and compare with the naive parse. Pushes every discrepancy to `fails`.
+pub fn check_index(stream: &Stream, kind: &ReaderKind, fails: &mut Fails) -> Result<IndexOutcome, Vec<Fail>> {
+    let naive = fasta_naive::parse(&stream.text).map_err(|e| vec![Fail::new("c11.harness.naive-parse", e)])?;
+    let worst = worst_shape(&naive);
+    let got = stream.index(kind);
+    let mut out = IndexOutcome { naive, index: None, worst, err: None };
+    match got {
+        Err(e) => {
+            if worst == Shape::Strict {
+                fails.push("fasta.index.rejects-valid", format!("indexer rejects a file whose every record has uniform lines: {e}"));
+            }
+            out.err = Some(e);
+        }
+        Ok(recs) => {
+            if worst == Shape::Ragged {
+                let which = out.naive.iter().position(|r| r.shape() == Shape::Ragged).unwrap_or(0);
+                fails.push(
+                    "fasta.index.ragged-accepted",
+                    format!("record #{which} ({:?}) has ragged lines {:?} but the indexer returned {:?}", BString::from(out.naive[which].name.clone()), line_summary(&out.naive[which]), recs.get(which)),
+                );
+                return Ok(out);
+            }
+            if worst == Shape::Empty {
+                // a definition without bases: outside the statement; nothing asserted
+                return Ok(out);
+            }
+            if recs.len() != out.naive.len() {
+                fails.push("fasta.index.record-count", format!("indexer returned {} records, the file has {}", recs.len(), out.naive.len()));
+                return Ok(out);
+            }
+            let mut all_equal = true;
+            for (i, (r, n)) in recs.iter().zip(&out.naive).enumerate() {
+                let Some(f) = n.fai() else { continue };
+                let name: &[u8] = r.name().as_ref();
+                if name != &f.name[..] {
+                    all_equal = false;
+                    fails.push("fasta.index.name", format!("record #{i}: name {:?}, naive {:?}", r.name(), BString::from(f.name.clone())));
+                }
+                if r.length() != f.length {
+                    all_equal = false;
+                    fails.push("fasta.index.length", format!("record #{i} {:?}: length {} naive {}", r.name(), r.length(), f.length));
+                }
+                if r.position() != f.offset {
+                    all_equal = false;
+                    fails.push("fasta.index.offset", format!("record #{i} {:?}: offset {} naive {}", r.name(), r.position(), f.offset));
+                }
+                if r.line_base_count().get() != f.line_bases {
+                    all_equal = false;
+                    fails.push("fasta.index.line-bases", format!("record #{i} {:?}: line bases {} naive {}", r.name(), r.line_base_count(), f.line_bases));
+                }
+                if r.line_width().get() != f.line_width {
+                    all_equal = false;
+                    fails.push("fasta.index.line-width", format!("record #{i} {:?}: line width {} naive {}", r.name(), r.line_width(), f.line_width));
+                }
+            }
+            if all_equal {
+                out.index = Some(recs);
+            }
+        }
+    }
+    Ok(out)
+}
+
+fn line_summary(r: &NaiveRecord) -> Vec<(usize, usize)> {
+    r.lines.iter().map(|l| (l.bases, l.width)).collect()
+}
+
+// ------------------------------------------------------------------------------------------------
+// regions
+
+#[derive(Clone, Copy, Debug, Serialize, Deserialize, PartialEq)]
+pub enum RegionKind {
+    /// one base
+    Single,
+    /// a few bases around the end of a sequence line
+    Boundary,
+    /// `s-len`
+    ToEnd,
+    /// `1-len`
+    Whole,
+    /// no interval at all
+    Unbounded,
+    /// `s-` (no end)
+    OpenEnd,
+    /// `-e` (no start)
+    OpenStart,
+    /// `s-e` with `e > len` (clipped)
+    EndBeyond,
+    /// any `s <= e <= len`
+    Random,
+    /// `s > len` — the recorded defect class
+    StartBeyond,
+}
+
+#[derive(Clone, Debug, Serialize, Deserialize)]
+pub struct RegionSpec {
+    pub rec: u16,
+    pub kind: RegionKind,
+    pub a: u16,
+    pub b: u16,
+}
+
+/// (start, end) as given to noodles; `None` = unbounded.
+fn resolve(spec: &RegionSpec, n: &NaiveRecord) -> (Option<u64>, Option<u64>) {
+    let len = n.seq.len() as u64;
+    let lb = n.lines.first().map(|l| l.bases as u64).unwrap_or(1).max(1);
+    let p = |sel: u16, k: u64| -> u64 { 1 + pick_idx(sel, k.max(1) as usize) as u64 };
+    match spec.kind {
+        RegionKind::Single => {
+            let s = p(spec.a, len);
+            (Some(s), Some(s))
+        }
+        RegionKind::Boundary => {
+            // last base of some full line, minus a little .. plus a little
+            let full_lines = (len / lb).max(1);
+            let edge = (p(spec.a, full_lines) * lb).min(len);
+            let back = (spec.b % 4) as u64;
+            let fwd = 1 + ((spec.b >> 2) % 4) as u64;
+            (Some(edge.saturating_sub(back).max(1)), Some(edge + fwd))
+        }
+        RegionKind::ToEnd => (Some(p(spec.a, len)), Some(len)),
+        RegionKind::Whole => (Some(1), Some(len)),
+        RegionKind::Unbounded => (None, None),
+        RegionKind::OpenEnd => (Some(p(spec.a, len)), None),
+        RegionKind::OpenStart => (None, Some(p(spec.a, len))),
+        // one in eight with the largest representable end
+        RegionKind::EndBeyond => (Some(p(spec.a, len)), Some(if spec.b % 8 == 7 { usize::MAX as u64 } else { len + 1 + (spec.b as u64 % 500) })),
+        RegionKind::Random => {
+            let s = p(spec.a, len);
+            let e = s + pick_idx(spec.b, (len - s + 1) as usize) as u64;
+            (Some(s), Some(e))
+        }
+        RegionKind::StartBeyond => {
+            let s = len + 1 + (spec.a as u64 % 40);
+            let e = if spec.b % 5 == 0 { None } else { Some(s + (spec.b as u64 % 30)) };
+            (Some(s), e)
+        }
+    }
+}
+
+fn to_region(name: &[u8], start: Option<u64>, end: Option<u64>) -> Result<Region, Vec<Fail>> {
+    let conv = |v: u64| usize::try_from(v).ok().and_then(|v| Position::try_from(v).ok()).ok_or_else(|| vec![Fail::new("c11.harness.position", format!("{v} is not a position"))]);
+    Ok(match (start, end) {
+        (Some(s), Some(e)) => Region::new(name, conv(s)?..=conv(e)?),
+        (Some(s), None) => Region::new(name, conv(s)?..),
+        (None, Some(e)) => Region::new(name, ..=conv(e)?),
+        (None, None) => Region::new(name, ..),
+    })
+}
+
+/// Compare one query answer with the naive slice.
+fn judge_query(what: &str, n: &NaiveRecord, start: Option<u64>, end: Option<u64>, got: Result<Result<Vec<u8>, String>, crate::engine::panics::PanicInfo>, fails: &mut Fails) {
+    let s = start.unwrap_or(1);
+    let region = format!("{:?}:{:?}-{:?} (length {})", BString::from(n.name.clone()), start, end, n.seq.len());
+    match n.slice(s, end) {
+        Some(want) => match got {
+            Ok(Ok(seq)) => {
+                if seq != want {
+                    let sig = if seq.len() != want.len() { "fasta.query.length" } else { "fasta.query.bases" };
+                    fails.push(sig, format!("{what} {region}: got {:?}, naive {:?}", BString::from(trunc_bytes(&seq)), BString::from(trunc_bytes(want))));
+                }
+            }
+            Ok(Err(e)) => fails.push("fasta.query.error", format!("{what} {region}: error {e}")),
+            Err(p) => fails.push(p.sig(), format!("{what} {region}: {}", p.describe())),
+        },
+        None => {
+            // start beyond the end: empty or an error, never bytes
+            match got {
+                Ok(Ok(seq)) if !seq.is_empty() => fails.push(SIG_BEYOND, format!("{what} {region}: start lies beyond the sequence end but the query returned {:?}", BString::from(trunc_bytes(&seq)))),
+                Ok(_) => {}
+                Err(p) => fails.push(format!("{SIG_BEYOND}/{}", p.sig()), format!("{what} {region}: start beyond the end: {}", p.describe())),
+            }
+        }
+    }
+}
+
+fn trunc_bytes(b: &[u8]) -> Vec<u8> {
+    if b.len() <= 120 { b.to_vec() } else { [&b[..100], b"...", &b[b.len() - 17..]].concat() }
+}
+
+// ------------------------------------------------------------------------------------------------
+// sub-check 1: index + queries
+
+#[derive(Clone, Debug, Serialize, Deserialize)]
+pub enum Source {
+    Harness,
+    /// written by `fasta::io::Writer` at the width of the first record
+    NoodlesWriter,
+}
+
+#[derive(Clone, Debug, Serialize, Deserialize)]
+pub struct Case {
+    pub doc: FastaDocSpec,
+    pub source: Source,
+    /// BGZF block sizes (cyclic); `None` = plain file
+    pub bgz: Option<Vec<u16>>,
+    pub index_reader: ReaderKind,
+    pub query_reader: ReaderKind,
+    pub regions: Vec<RegionSpec>,
+    /// also go through the path-based APIs (`fasta::fs::index`, `fai::fs`, `indexed_reader::Builder`)
+    pub via_fs: bool,
+}
+
+fn region_spec(kinds: Vec<(u32, RegionKind)>) -> BoxedStrategy<RegionSpec> {
+    let arms: Vec<(u32, BoxedStrategy<RegionKind>)> = kinds.into_iter().map(|(w, k)| (w, Just(k).boxed())).collect();
+    (any::<u16>(), proptest::strategy::Union::new_weighted(arms), any::<u16>(), any::<u16>()).prop_map(|(rec, kind, a, b)| RegionSpec { rec, kind, a, b }).boxed()
+}
+
+fn strategy(tier: Tier) -> BoxedStrategy<Case> {
+    use RegionKind::*;
+    let in_range = vec![(3, Single), (4, Boundary), (2, ToEnd), (1, Whole), (1, Unbounded), (2, OpenEnd), (1, OpenStart), (2, EndBeyond), (3, Random)];
+    let nregions = tier.pick(26usize, 30usize);
+    let regions = (proptest::collection::vec(region_spec(in_range), 1..=nregions), prop_oneof![7 => Just(0usize), 1 => 1usize..=3]).prop_flat_map(|(base, nbeyond)| {
+        // the recorded defect class is confined to about one case in eight
+        proptest::collection::vec(region_spec(vec![(1, StartBeyond)]), nbeyond..=nbeyond).prop_map(move |extra| {
+            let mut v = base.clone();
+            v.extend(extra);
+            v
+        })
+    });
+    (
+        text::fasta_doc_spec(tier.pick(8, 12), 5, 200),
+        prop_oneof![3 => Just(Source::Harness), 1 => Just(Source::NoodlesWriter)],
+        bgz_script(),
+        reader_kind(),
+        reader_kind(),
+        regions,
+        prop_oneof![5 => Just(false), 1 => Just(true)],
+    )
+        .prop_map(|(doc, source, bgz, index_reader, query_reader, regions, via_fs)| Case { doc, source, bgz, index_reader, query_reader, regions, via_fs })
+        .boxed()
+}
+
+fn fail_io(sig: &str, what: &str) -> impl Fn(io::Error) -> Vec<Fail> {
+    let (sig, what) = (sig.to_string(), what.to_string());
+    move |e| vec![Fail::new(sig.clone(), format!("{what}: {e}"))]
+}
+
+static FILE_SEQ: AtomicU64 = AtomicU64::new(0);
+
+fn run_query<R: BufRead + Seek>(r: &mut fasta::io::IndexedReader<R>, region: &Region) -> Result<Result<Vec<u8>, String>, crate::engine::panics::PanicInfo> {
+    crate::engine::panics::catch(std::panic::AssertUnwindSafe(|| r.query(region).map(|rec| rec.sequence().as_ref().to_vec()).map_err(|e| format!("{e}"))))
+}
+
+fn check(c: &Case) -> Verdict {
+    let doc: FastaDoc = c.doc.expand();
+    let mut fails = Fails::new();
+    let text = match c.source {
+        Source::Harness => doc.render(),
+        Source::NoodlesWriter => {
+            let w = doc.records[0].width as usize;
+            let bytes = doc.write_with_noodles(w).map_err(fail_io("fasta.writer.error", "fasta::io::Writer"))?;
+            if bytes != doc.render_as_writer(w) {
+                return fail1("fasta.writer.bytes", format!("fasta::io::Writer at width {w} wrote {:?}", BString::from(trunc_bytes(&bytes))));
+            }
+            bytes
+        }
+    };
+    let stream = Stream::new(text, &c.bgz)?;
+    let out = check_index(&stream, &c.index_reader, &mut fails)?;
+
+    // the naive parse must see what the generator put in (guards the oracle itself)
+    ensure_eq!(out.naive.len(), doc.records.len(), "c11.harness.oracle-mismatch", "naive record count");
+    for (n, r) in out.naive.iter().zip(&doc.records) {
+        ensure!(n.name == r.name.as_bytes() && n.seq == r.seq.as_bytes() && n.description.as_deref() == r.description.as_ref().map(|d| d.as_bytes()), "c11.harness.oracle-mismatch", "naive parse of {:?} differs from the generated record", r.name);
+    }
+
+    let multi_line = out.naive.iter().any(|n| n.seq_lines() >= 2);
+    let mut pass = Pass::new(false, key_of(c))
+        .label_if(doc.layout.crlf, "crlf")
+        .label_if(c.bgz.is_some(), "bgzf+gzi")
+        .label_if(matches!(c.source, Source::NoodlesWriter), "written-by-noodles")
+        .label_if(!doc.layout.final_newline, "no-final-newline")
+        .label_if(doc.records.iter().any(|r| r.blank_after > 0), "blank-lines")
+        .label_if(doc.records.iter().any(|r| r.description.is_some()), "description")
+        .label_if(matches!(c.index_reader, ReaderKind::Cap(n) if n <= 3), "index-cap<=3")
+        .label_if(matches!(c.index_reader, ReaderKind::Window(_)), "index-window-reader")
+        .label_if(matches!(c.query_reader, ReaderKind::Window(_)), "query-window-reader")
+        .label_if(matches!(c.query_reader, ReaderKind::Cap(n) if n <= 3), "query-cap<=3")
+        .label_if(doc.records.len() >= 2, "records>=2")
+        .label_if(out.naive.iter().any(|n| n.seq_lines() >= 2 && n.lines.first().map(|l| l.bases) == n.lines.iter().filter(|l| l.bases > 0).last().map(|l| l.bases)), "full-last-line")
+        .label_if(out.naive.iter().any(|n| n.seq_lines() == 1), "single-line-record")
+        .label(match out.worst {
+            Shape::Strict => "shape-strict",
+            Shape::Lenient => "shape-lenient",
+            Shape::Ragged => "shape-ragged",
+            Shape::Empty => "shape-empty",
+        });
+    if out.worst == Shape::Lenient {
+        // blank-line tails: the indexer may be pickier than the naive rule (observed: a blank line
+        // after a short last line, or two blank lines, are rejected; one blank line after a full
+        // last line is accepted) — never asserted, but counted
+        pass = pass.label(if out.index.is_some() { "lenient-accepted" } else { "lenient-rejected" });
+        let short_then_blank = out.naive.iter().any(|n| {
+            let core: Vec<_> = n.lines.iter().filter(|l| l.bases > 0).collect();
+            n.lines.last().is_some_and(|l| l.bases == 0) && core.len() >= 2 && core.last().map(|l| l.bases) < core.first().map(|l| l.bases)
+        });
+        pass = pass.label_if(short_then_blank && out.index.is_none(), "rejected:blank-line-after-short-last-line");
+    }
+    let Some(index_records) = out.index.clone() else {
+        return fails.finish(pass.label("passed-without-known-finding"));
+    };
+    let index = fai::Index::from(index_records);
+
+    // fai text round trip (the index a user would store next to the file)
+    let mut fai_bytes = Vec::new();
+    fai::io::Writer::new(&mut fai_bytes).write_index(&index).map_err(fail_io("fai.write.error", "fai::io::Writer"))?;
+    match fai::io::Reader::new(&fai_bytes[..]).read_index() {
+        Ok(back) => {
+            if back != index {
+                fails.push("fai.roundtrip", format!("fai written as {:?} reads back as {:?}", BString::from(fai_bytes.clone()), back));
+            }
+        }
+        Err(e) => fails.push("fai.roundtrip", format!("fai written as {:?} does not read back: {e}", BString::from(fai_bytes.clone()))),
+    }
+
+    // region queries through IndexedReader
+    let mut reader = fasta::io::IndexedReader::new(stream.open(&c.query_reader), index.clone());
+    let mut evals = 0u64;
+    let mut partial = false;
+    let mut kinds_seen: Vec<RegionKind> = Vec::new();
+    let mut resolved: Vec<(usize, Option<u64>, Option<u64>)> = Vec::new();
+    for spec in &c.regions {
+        let ri = pick_idx(spec.rec, out.naive.len());
+        let n = &out.naive[ri];
+        let (s, e) = resolve(spec, n);
+        let region = to_region(&n.name, s, e)?;
+        let got = run_query(&mut reader, &region);
+        judge_query("IndexedReader::query", n, s, e, got, &mut fails);
+        evals += 1;
+        if !kinds_seen.contains(&spec.kind) {
+            kinds_seen.push(spec.kind);
+        }
+        if n.seq_lines() >= 2 && !matches!(spec.kind, RegionKind::Whole | RegionKind::Unbounded) {
+            partial = true;
+        }
+        resolved.push((ri, s, e));
+    }
+
+    // adapters: plain Reader::query with the index, Repository over the indexed reader, Repository
+    // over the records read sequentially
+    {
+        let mut plain = fasta::io::Reader::new(stream.open(&c.query_reader));
+        for (ri, s, e) in resolved.iter().take(4) {
+            let n = &out.naive[*ri];
+            let region = to_region(&n.name, *s, *e)?;
+            let got = crate::engine::panics::catch(std::panic::AssertUnwindSafe(|| plain.query(&index, &region).map(|rec| rec.sequence().as_ref().to_vec()).map_err(|e| format!("{e}"))));
+            judge_query("Reader::query", n, *s, *e, got, &mut fails);
+            evals += 1;
+        }
+    }
+    {
+        let adapter = fasta::repository::adapters::IndexedReader::new(fasta::io::IndexedReader::new(stream.open(&c.query_reader), index.clone()));
+        let repo = fasta::Repository::new(adapter);
+        for n in out.naive.iter().rev() {
+            for round in 0..2 {
+                match repo.get(&n.name) {
+                    Some(Ok(seq)) => {
+                        let got: &[u8] = (*seq).as_ref();
+                        if got != &n.seq[..] {
+                            fails.push("fasta.repository.indexed-reader", format!("Repository(IndexedReader).get({:?}) round {round}: {} bases, naive {}", BString::from(n.name.clone()), got.len(), n.seq.len()));
+                        }
+                    }
+                    Some(Err(e)) => fails.push("fasta.repository.indexed-reader", format!("Repository(IndexedReader).get({:?}): {e}", BString::from(n.name.clone()))),
+                    None => fails.push("fasta.repository.indexed-reader", format!("Repository(IndexedReader).get({:?}) = None", BString::from(n.name.clone()))),
+                }
+                evals += 1;
+            }
+        }
+    }
+    {
+        let mut seq_reader = fasta::io::Reader::new(stream.open(&c.query_reader));
+        let records: Result<Vec<fasta::Record>, io::Error> = seq_reader.records().collect();
+        match records {
+            Err(e) => fails.push("fasta.read.error", format!("Reader::records: {e}")),
+            Ok(records) => {
+                if records.len() != out.naive.len() {
+                    fails.push("fasta.read.count", format!("Reader::records returned {} records, the file has {}", records.len(), out.naive.len()));
+                } else {
+                    for (r, n) in records.iter().zip(&out.naive) {
+                        let desc: Option<&[u8]> = r.description().map(|d| d.as_ref());
+                        if r.name() != &n.name[..] || desc != n.description.as_deref() || r.sequence().as_ref() != &n.seq[..] {
+                            fails.push("fasta.read.record", format!("Reader::records: got {}, naive {}", text::canonical_fasta_record(r), text::canonical_fasta(&n.name, n.description.as_deref(), &n.seq)));
+                        }
+                    }
+                    let repo = fasta::Repository::new(records);
+                    for n in &out.naive {
+                        match repo.get(&n.name) {
+                            Some(Ok(seq)) if (*seq).as_ref() == &n.seq[..] => {}
+                            other => fails.push("fasta.repository.records", format!("Repository(Vec<Record>).get({:?}) = {:?}", BString::from(n.name.clone()), other.map(|r| r.map(|s| s.len()).map_err(|e| e.to_string())))),
+                        }
+                    }
+                }
+            }
+        }
+    }
+
+    // path-based APIs
+    if c.via_fs {
+        let dir = &env().tmp_dir;
+        let id = FILE_SEQ.fetch_add(1, Ordering::Relaxed);
+        let base = dir.join(format!("c11-{}-{id}.{}", std::process::id(), if stream.bgz.is_some() { "fa.gz" } else { "fa" }));
+        let fai_path = std::path::PathBuf::from(format!("{}.fai", base.display()));
+        let gzi_path = std::path::PathBuf::from(format!("{}.gzi", base.display()));
+        let res = (|| -> Result<(), Vec<Fail>> {
+            let h = fail_io("c11.harness.tmpfile", "temporary file");
+            match &stream.bgz {
+                None => {
+                    std::fs::write(&base, &stream.text).map_err(&h)?;
+                    match fasta::fs::index(&base) {
+                        Ok(ix) => {
+                            if ix != index {
+                                fails.push("fasta.fs-index.differs", format!("fasta::fs::index = {ix:?}, Indexer over the same bytes = {index:?}"));
+                            }
+                        }
+                        Err(e) => fails.push("fasta.fs-index.differs", format!("fasta::fs::index fails ({e}) where Indexer over the same bytes succeeds")),
+                    }
+                }
+                Some((file, gzi)) => {
+                    std::fs::write(&base, file).map_err(&h)?;
+                    // gzi on disk: u64 count, then (compressed, uncompressed) pairs, little endian
+                    let mut g = (gzi.len() as u64).to_le_bytes().to_vec();
+                    for (c, u) in gzi {
+                        g.extend_from_slice(&c.to_le_bytes());
+                        g.extend_from_slice(&u.to_le_bytes());
+                    }
+                    std::fs::write(&gzi_path, g).map_err(&h)?;
+                }
+            }
+            fai::fs::write(&fai_path, &index).map_err(fail_io("fai.write.error", "fai::fs::write"))?;
+            let mut r = fasta::io::indexed_reader::Builder::default().build_from_path(&base).map_err(fail_io("fasta.indexed-reader.build-from-path", "indexed_reader::Builder::build_from_path"))?;
+            if r.index() != &index {
+                fails.push("fai.roundtrip", format!("index read from the .fai file {:?} differs from the one written {:?}", r.index(), index));
+            }
+            for (ri, s, e) in &resolved {
+                let n = &out.naive[*ri];
+                let region = to_region(&n.name, *s, *e)?;
+                let got = run_query(&mut r, &region);
+                judge_query("build_from_path + query", n, *s, *e, got, &mut fails);
+                evals += 1;
+            }
+            Ok(())
+        })();
+        let _ = std::fs::remove_file(&base);
+        let _ = std::fs::remove_file(&fai_path);
+        let _ = std::fs::remove_file(&gzi_path);
+        res?;
+    }
+
+    pass.nontrivial = multi_line && partial;
+    for k in kinds_seen {
+        pass = pass.label(match k {
+            RegionKind::Single => "region-single-base",
+            RegionKind::Boundary => "region-line-boundary",
+            RegionKind::ToEnd => "region-to-end",
+            RegionKind::Whole => "region-whole",
+            RegionKind::Unbounded => "region-unbounded",
+            RegionKind::OpenEnd => "region-open-end",
+            RegionKind::OpenStart => "region-open-start",
+            RegionKind::EndBeyond => "region-end-beyond(clipped)",
+            RegionKind::Random => "region-random",
+            RegionKind::StartBeyond => "region-start-beyond",
+        });
+    }
+    fails.finish(pass.label_if(c.via_fs, "via-fs-paths").label("passed-without-known-finding").evals(evals.max(1)))
+}
+
+// ------------------------------------------------------------------------------------------------
+// sub-check 2: ragged files
+
+#[derive(Clone, Debug, Serialize, Deserialize)]
+pub enum Edit {
+    /// insert k bases at the end of the line
+    Lengthen(u8),
+    /// remove up to k bases from the end of the line (down to an empty line)
+    Shorten(u8),
+    /// LF ↔ CRLF on that line only
+    ToggleTerminator,
+    /// an empty line inserted after the line
+    InsertBlank,
+    /// the last line grown beyond the first line's length by k
+    LastLonger(u8),
+}
+
+#[derive(Clone, Debug, Serialize, Deserialize)]
+pub struct RaggedCase {
+    pub doc: FastaDocSpec,
+    pub rec: u16,
+    /// selector among the non-last lines of the record
+    pub line: u16,
+    pub edit: Edit,
+    pub bgz: Option<Vec<u16>>,
+    pub reader: ReaderKind,
+}
+
+fn ragged_strategy(tier: Tier) -> BoxedStrategy<RaggedCase> {
+    let edit = prop_oneof![
+        3 => (1u8..=3).prop_map(Edit::Lengthen),
+        3 => (1u8..=3).prop_map(Edit::Shorten),
+        2 => Just(Edit::ToggleTerminator),
+        1 => Just(Edit::InsertBlank),
+        2 => (1u8..=3).prop_map(Edit::LastLonger),
+    ];
+    (text::fasta_doc_spec(tier.pick(4, 6), 6, 120), any::<u16>(), any::<u16>(), edit, bgz_script(), reader_kind())
+        .prop_map(|(mut doc, rec, line, edit, bgz, reader)| {
+            // keep the unedited file strictly uniform, and records long enough to have interior lines
+            for r in &mut doc.records {
+                r.blank_after = 0;
+                let w = r.width.max(1) as u32;
+                if r.len <= 2 * w {
+                    r.len += 2 * w;
+                }
+            }
+            RaggedCase { doc, rec, line, edit, bgz, reader }
+        })
+        .boxed()
+}
+
+fn ragged_check(c: &RaggedCase) -> Verdict {
+    let doc = c.doc.expand();
+    let text = doc.render();
+    let naive0 = fasta_naive::parse(&text).map_err(|e| vec![Fail::new("c11.harness.naive-parse", e)])?;
+    ensure!(worst_shape(&naive0) == Shape::Strict, "c11.harness.oracle-mismatch", "unedited file is not strictly uniform");
+    let ri = pick_idx(c.rec, naive0.len());
+    let rec = &naive0[ri];
+    let nl = rec.lines.len();
+    ensure!(nl >= 2, "c11.harness.oracle-mismatch", "record has {nl} lines");
+    let li = match c.edit {
+        Edit::LastLonger(_) => nl - 1,
+        _ => pick_idx(c.line, nl - 1),
+    };
+    let line = &rec.lines[li];
+    let term = line.width - line.bases; // 0 (unterminated last line), 1 or 2
+    let bases_end = line.start as usize + line.bases;
+    let mut edited = text.clone();
+    match c.edit {
+        Edit::Lengthen(k) => {
+            edited.splice(bases_end..bases_end, std::iter::repeat_n(b'G', k as usize));
+        }
+        Edit::LastLonger(k) => {
+            let first = rec.lines[0].bases;
+            let add = first - line.bases.min(first) + k as usize;
+            edited.splice(bases_end..bases_end, std::iter::repeat_n(b'T', add));
+        }
+        Edit::Shorten(k) => {
+            let k = (k as usize).min(line.bases);
+            edited.drain(bases_end - k..bases_end);
+        }
+        Edit::ToggleTerminator => {
+            if term == 2 {
+                edited.remove(bases_end);
+            } else if term == 1 {
+                edited.insert(bases_end, b'\r');
+            }
+        }
+        Edit::InsertBlank => {
+            let at = line.start as usize + line.width;
+            let nlb: &[u8] = if doc.layout.crlf { b"\r\n" } else { b"\n" };
+            edited.splice(at..at, nlb.iter().copied());
+        }
+    }
+    let stream = Stream::new(edited, &c.bgz)?;
+    let mut fails = Fails::new();
+    let out = check_index(&stream, &c.reader, &mut fails)?;
+    let ragged = out.worst == Shape::Ragged;
+    let pass = Pass::new(ragged, key_of(c))
+        .label(match c.edit {
+            Edit::Lengthen(_) => "edit-lengthen",
+            Edit::Shorten(_) => "edit-shorten",
+            Edit::ToggleTerminator => "edit-terminator",
+            Edit::InsertBlank => "edit-blank-line",
+            Edit::LastLonger(_) => "edit-last-longer",
+        })
+        .label(match out.worst {
+            Shape::Strict => "edited-still-strict",
+            Shape::Lenient => "edited-lenient",
+            Shape::Ragged => "edited-ragged",
+            Shape::Empty => "edited-empty",
+        })
+        .label_if(ragged && out.err.is_some(), "ragged-rejected")
+        .label_if(li == 0, "first-line-edited")
+        .label_if(c.bgz.is_some(), "bgzf")
+        .label_if(doc.layout.crlf, "crlf")
+        .label_if(matches!(c.reader, ReaderKind::Cap(n) if n <= 3), "cap<=3")
+        .label_if(matches!(c.reader, ReaderKind::Window(_)), "window-reader");
+    fails.finish(pass.label("passed-without-known-finding"))
+}
+
+// ------------------------------------------------------------------------------------------------
+// sub-check 3: written by noodles, read back
+
+#[derive(Clone, Debug, Serialize, Deserialize)]
+pub struct WriteReadCase {
+    pub fasta: FastaDocSpec,
+    /// configured `line_base_count`
+    pub width: u16,
+    pub fastq: FastqDoc,
+    /// 0 = read from the slice, otherwise `BufReader::with_capacity(cap, …)`
+    pub cap: u8,
+}
+
+fn wr_strategy(tier: Tier) -> BoxedStrategy<WriteReadCase> {
+    (text::fasta_doc_spec(tier.pick(5, 8), 5, 200), text::line_width(200), text::fastq_doc(tier.pick(5, 8)), prop_oneof![1 => Just(0u8), 4 => 1u8..=64])
+        .prop_map(|(fasta, width, mut fastq, cap)| {
+            fastq.layout.crlf = false;
+            fastq.layout.plus_repeats_name = false;
+            fastq.layout.final_newline = true;
+            WriteReadCase { fasta, width, fastq, cap }
+        })
+        .boxed()
+}
+
+fn with_cap<'a>(bytes: &'a [u8], cap: u8) -> Box<dyn BufRead + 'a> {
+    if cap == 0 { Box::new(bytes) } else { Box::new(BufReader::with_capacity(cap as usize, bytes)) }
+}
+
+fn fastq_index_check(bytes: &[u8], cap: u8, crlf: bool, fails: &mut Fails) -> Result<(), Vec<Fail>> {
+    let naive = fasta_naive::parse_fastq(bytes).map_err(|e| vec![Fail::new("c11.harness.naive-parse", e)])?;
+    let mut indexer = fastq::io::Indexer::new(with_cap(bytes, cap));
+    let mut got = Vec::new();
+    loop {
+        match indexer.index_record() {
+            Ok(Some(r)) => got.push(r),
+            Ok(None) => break,
+            Err(e) => {
+                fails.push("fastq.index.error", format!("fastq::io::Indexer: {e}"));
+                return Ok(());
+            }
+        }
+    }
+    if got.len() != naive.len() {
+        fails.push("fastq.index.count", format!("{} index records for {} FASTQ records", got.len(), naive.len()));
+        return Ok(());
+    }
+    for (g, n) in got.iter().zip(&naive) {
+        let want = fastq::fai::Record::new(String::from_utf8_lossy(&n.name).into_owned(), n.seq.len() as u64, n.seq_offset, n.seq.len() as u64, n.seq_line_width, n.qual_offset);
+        if *g != want {
+            // the recorded CR finding reaches the indexer's name column through the same function
+            let want_cr = fastq::fai::Record::new(format!("{}\r", String::from_utf8_lossy(&n.name)), n.seq.len() as u64, n.seq_offset, n.seq.len() as u64, n.seq_line_width, n.qual_offset);
+            let sig = if crlf && n.description.is_empty() && *g == want_cr { SIG_FASTQ_CR } else { "fastq.index.record" };
+            fails.push(sig, format!("index record {g:?}, naive {want:?}"));
+        }
+    }
+    Ok(())
+}
+
+fn wr_check(c: &WriteReadCase) -> Verdict {
+    let mut fails = Fails::new();
+    let width = c.width.max(1) as usize;
+
+    // FASTA
+    let doc = c.fasta.expand();
+    let bytes = doc.write_with_noodles(width).map_err(fail_io("fasta.writer.error", "fasta::io::Writer"))?;
+    if bytes != doc.render_as_writer(width) {
+        fails.push("fasta.writer.bytes", format!("fasta::io::Writer at width {width} wrote {:?}", BString::from(trunc_bytes(&bytes))));
+    }
+    let want = doc.to_noodles();
+    let back: Result<Vec<fasta::Record>, io::Error> = fasta::io::Reader::new(with_cap(&bytes, c.cap)).records().collect();
+    match back {
+        Err(e) => fails.push("fasta.read.error", format!("reading back what fasta::io::Writer wrote: {e}")),
+        Ok(back) => {
+            if back != want {
+                let i = back.iter().zip(&want).position(|(a, b)| a != b).unwrap_or(back.len().min(want.len()));
+                fails.push("fasta.write-read", format!("{} records written, {} read; first difference at #{i}: wrote {:?}, read {:?}", want.len(), back.len(), want.get(i).map(text::canonical_fasta_record), back.get(i).map(text::canonical_fasta_record)));
+            }
+        }
+    }
+
+    // FASTQ
+    let qbytes = c.fastq.write_with_noodles().map_err(fail_io("fastq.writer.error", "fastq::io::Writer"))?;
+    if qbytes != c.fastq.render_as_writer() {
+        fails.push("fastq.writer.bytes", format!("fastq::io::Writer wrote {:?}", BString::from(trunc_bytes(&qbytes))));
+    }
+    let qwant = c.fastq.to_noodles();
+    let qback: Result<Vec<fastq::Record>, io::Error> = fastq::io::Reader::new(with_cap(&qbytes, c.cap)).records().collect();
+    match qback {
+        Err(e) => fails.push("fastq.read.error", format!("reading back what fastq::io::Writer wrote: {e}")),
+        Ok(qback) => {
+            if qback != qwant {
+                let i = qback.iter().zip(&qwant).position(|(a, b)| a != b).unwrap_or(qback.len().min(qwant.len()));
+                fails.push("fastq.write-read", format!("{} records written, {} read; first difference at #{i}: wrote {:?}, read {:?}", qwant.len(), qback.len(), qwant.get(i).map(text::canonical_fastq_record), qback.get(i).map(text::canonical_fastq_record)));
+            }
+        }
+    }
+    fastq_index_check(&qbytes, c.cap, false, &mut fails)?;
+    if fails.is_empty() {
+        // the shared transcript helpers must agree with the models' canonical texts
+        let (t, e) = text::fasta_read_transcript(&bytes[..]);
+        let (tq, eq) = text::fastq_read_transcript(&qbytes[..]);
+        let want: Vec<String> = doc.records.iter().map(|r| r.canonical_text()).collect();
+        let wantq: Vec<String> = c.fastq.records.iter().map(|r| r.canonical_text()).collect();
+        if e.is_some() || eq.is_some() || t != want || tq != wantq {
+            fails.push("c11.harness.transcript", format!("read transcripts {t:?} {e:?} {tq:?} {eq:?} differ from the canonical texts {want:?} {wantq:?}"));
+        }
+    }
+
+    let at_plus = c.fastq.records.iter().any(|r| r.qual.starts_with('@') || r.qual.starts_with('+'));
+    let wrapped = doc.records.iter().any(|r| r.seq.len() > width);
+    let pass = Pass::new(at_plus || wrapped, key_of(c))
+        .label_if(c.fastq.records.iter().any(|r| r.qual.starts_with('@')), "qual-starts-with-@")
+        .label_if(c.fastq.records.iter().any(|r| r.qual.starts_with('+')), "qual-starts-with-+")
+        .label_if(c.fastq.records.iter().any(|r| r.qual[1.min(r.qual.len())..].contains(['@', '+'])), "qual-contains-@+")
+        .label_if(c.fastq.records.iter().any(|r| r.seq.is_empty()), "fastq-empty-sequence")
+        .label_if(c.fastq.records.iter().any(|r| !r.description.is_empty()), "fastq-description")
+        .label_if(c.fastq.layout.sep_tab, "fastq-tab-separator")
+        .label_if(wrapped, "fasta-wrapped")
+        .label_if(doc.records.iter().any(|r| r.seq.len() % width == 0), "fasta-full-last-line")
+        .label_if(doc.records.iter().any(|r| r.description.is_some()), "fasta-description")
+        .label_if(c.cap != 0 && c.cap <= 3, "cap<=3")
+        .label_if(width == 1, "width-1");
+    fails.finish(pass.label("passed-without-known-finding"))
+}
+
+// ------------------------------------------------------------------------------------------------
+// sub-check 4: FASTQ text layouts
+
+#[derive(Clone, Debug, Serialize, Deserialize)]
+pub struct FastqLayoutCase {
+    pub doc: FastqDoc,
+    pub cap: u8,
+}
+
+fn fql_strategy(tier: Tier) -> BoxedStrategy<FastqLayoutCase> {
+    (text::fastq_doc(tier.pick(4, 8)), prop_oneof![1 => Just(0u8), 5 => 1u8..=64]).prop_map(|(doc, cap)| FastqLayoutCase { doc, cap }).boxed()
+}
+
+pub const SIG_FASTQ_CR: &str = "fastq.read.name-keeps-cr-split-across-fills";
+
+fn fql_check(c: &FastqLayoutCase) -> Verdict {
+    let mut fails = Fails::new();
+    let bytes = c.doc.render();
+    let want = c.doc.to_noodles();
+    let back: Result<Vec<fastq::Record>, io::Error> = fastq::io::Reader::new(with_cap(&bytes, c.cap)).records().collect();
+    match back {
+        Err(e) => fails.push("fastq.read.error", format!("{e}")),
+        Ok(back) => {
+            if back.len() != want.len() {
+                fails.push("fastq.read.count", format!("{} records in the file, {} read", want.len(), back.len()));
+            } else {
+                for (b, w) in back.iter().zip(&want) {
+                    if b == w {
+                        continue;
+                    }
+                    // class predicate of the recorded finding: CRLF input, a definition line
+                    // without description, and only the name differs by one trailing CR
+                    let mut w_cr = w.clone();
+                    w_cr.name_mut().push(b'\r');
+                    let sig = if c.doc.layout.crlf && w.description().is_empty() && *b == w_cr { SIG_FASTQ_CR } else { "fastq.read.record" };
+                    fails.push(sig, format!("read {:?}, file has {:?}", text::canonical_fastq_record(b), text::canonical_fastq_record(w)));
+                }
+            }
+        }
+    }
+    fastq_index_check(&bytes, c.cap, c.doc.layout.crlf, &mut fails)?;
+    let pass = Pass::new(c.doc.layout.crlf || c.doc.layout.plus_repeats_name || !c.doc.layout.final_newline, key_of(c))
+        .label_if(c.doc.layout.crlf, "crlf")
+        .label_if(c.doc.layout.plus_repeats_name, "plus-line-repeats-name")
+        .label_if(!c.doc.layout.final_newline, "no-final-newline")
+        .label_if(c.doc.layout.sep_tab, "tab-separator")
+        .label_if(c.cap != 0 && c.cap <= 3, "cap<=3")
+        .label_if(c.doc.records.iter().any(|r| r.qual.starts_with('@') || r.qual.starts_with('+')), "qual-starts-with-@+");
+    fails.finish(pass.label("passed-without-known-finding"))
+}
 
 pub fn property() -> Property {
-    Property { id: "C11", level: "exploration", rule: "", assumptions: vec![], subs: vec![], max_parallel: 16 }
+    Property {
+        id: "C11",
+        level: "exploration",
+        rule: "FASTA geometries (1..12 records × 1..5 lines × width 1..200, LF/CRLF, blank lines, short/full last line, missing final newline, descriptions; harness-built or written by fasta::io::Writer; plain or bgzipped with a walker-built gzi) × reader (Cursor, BufReader capacity 1..64, scripted fill_buf windows) × regions; derived ragged files; FASTA/FASTQ write→read",
+        assumptions: vec![
+            "the naive line splitter in oracle/fasta_naive.rs and the samtools-faidx column definitions (offset of first base, bases and bytes of the first line)".into(),
+            "the harness's BGZF builder/walker (miniz_oxide, crc32fast) for the bgzipped inputs and their gzi".into(),
+            "acceptance is only demanded for files without blank lines whose last line is not longer than the first; for blank-line tails the indexer may reject, but may not mis-index".into(),
+        ],
+        subs: vec![
+            sub(
+                "index_query",
+                "non-trivial = a record with ≥2 sequence lines and ≥1 region other than the whole sequence evaluated against an accepted index; distinct by hash of the case; evaluations count individual queries",
+                strategy,
+                check,
+                40_000,
+                1_000_000,
+            )
+            .boxed(),
+            sub("ragged", "non-trivial = the edited file is ragged by the naive shape rule (an interior/first line differs, or the last line is longer than the first); distinct by hash of the case", ragged_strategy, ragged_check, 40_000, 1_000_000).boxed(),
+            sub("write_read", "non-trivial = a quality string starting with '@' or '+', or a FASTA sequence wrapped over ≥2 lines; distinct by hash of the case", wr_strategy, wr_check, 30_000, 800_000).boxed(),
+            sub("fastq_layouts", "non-trivial = CRLF, or a '+' line repeating the name, or no final newline; distinct by hash of the case", fql_strategy, fql_check, 20_000, 500_000).boxed(),
+        ],
+        max_parallel: 16,
+    }
 }
